@@ -371,6 +371,8 @@ Proof.
     try (destruct (refresh (heap w) o) as [h1 g1]); try destruct (Nat.leb _ _); cbn [objs];
     rewrite ?upd_length, ?app_length; cbn [length]; lia.
 Qed.
+Lemma fold_objs_length ws : forall w, length (objs w) <= length (objs (fold_left step ws w)).
+Proof. induction ws as [|o ws IH]; intros w; cbn [fold_left]; [lia|]. pose proof (step_objs_length w o). specialize (IH (step w o)). lia. Qed.
 Theorem others_untouched ops : forall w j, Inv w -> j < length (objs w) ->
   Forall (fun o => target o <> Some j) ops -> view_at (fold_left step ops w) j = view_at w j.
 Proof.
@@ -391,5 +393,108 @@ Proof.
     rewrite app_nth1 by (rewrite app_length; cbn; lia).
     rewrite nth_app_len, (nth_app_len (heap w ++ [nth (cmd_p g) (heap w) []])). reflexivity.
   - apply step_view_other; [exact I| |discriminate]. apply nth_error_Some; congruence.
+Qed.
+
+(* ---------- the protocol of the variation operators (property C04): copy the parent, then touch only the copy ---------- *)
+Theorem set_age_effect w i g a : Inv w -> nth_error (objs w) i = Some g ->
+  view_at (step w (SetAge i a)) i =
+  Some (mkV (nth (cmd_p g) (heap w) []) (nth (simp_p g) (heap w) []) (consts g) (needs_opt g) (modified g) (use_simp g)
+            (fitness g) (fit_set g) a).
+Proof.
+  intros _ H. unfold AGraphObj.view_at, AGraphObj.step. rewrite H. unfold set_obj; cbn [objs heap].
+  rewrite nth_error_upd, Nat.eqb_refl, H. reflexivity.
+Qed.
+
+Definition is_write_to (ch : nat) (o : op) : Prop := exists r x, o = WriteRow ch r x.
+(* after a copy and ANY number of row writes through the copy's mutable view: age kept; flag and fitness cleared iff something was written *)
+Lemma writes_to_child ch : forall (writes : list op) w v, Inv w -> view_at w ch = Some v -> Forall (is_write_to ch) writes ->
+  exists v', view_at (fold_left step writes w) ch = Some v' /\ v_age v' = v_age v /\ v_flag v' = v_flag v /\
+             length (v_cmd v') = length (v_cmd v) /\
+             (writes = [] -> v' = v) /\ (writes <> [] -> v_fset v' = false /\ v_fit v' = None /\ v_mod v' = true).
+Proof.
+  induction writes as [|o writes IH]; intros w v I V F; cbn [fold_left].
+  - exists v. split; [exact V|]. split; [reflexivity|]. split; [reflexivity|]. split; [reflexivity|]. split; [reflexivity|]. intros N; exfalso; apply N; reflexivity.
+  - inversion F as [|? ? (r & x & ->) F']; subst.
+    unfold AGraphObj.view_at in V. destruct (nth_error (objs w) ch) as [g|] eqn:Hg; [|discriminate V]. cbn in V. injection V as <-.
+    pose proof (write_row_effect w ch g r x I Hg) as E.
+    destruct (IH _ _ (step_inv _ _ I) E F') as (v' & V' & A & Fl & Ln & _ & Wr).
+    exists v'. split; [exact V'|]. cbn [v_age v_flag v_cmd AGraphObj.view_of] in *. rewrite upd_length in Ln.
+    split; [exact A|]. split; [exact Fl|]. split; [exact Ln|]. split; [intros N; discriminate N|]. intros _.
+    destruct writes as [|o2 writes2].
+    + cbn [fold_left] in V'. rewrite E in V'. injection V' as <-. cbn. auto.
+    + apply Wr. discriminate.
+Qed.
+
+Theorem mutation_protocol ops i g (writes : list op) :
+  let w := run ops in
+  nth_error (objs w) i = Some g ->
+  let ch := length (objs w) in
+  Forall (is_write_to ch) writes ->
+  let w' := fold_left step writes (step w (Copy i)) in
+  view_at w' i = view_at w i /\
+  exists v', view_at w' ch = Some v' /\ v_age v' = age g /\
+             (writes = [] -> v' = view_of (heap w) g) /\
+             (writes <> [] -> v_fset v' = false /\ v_fit v' = None /\ v_mod v' = true).
+Proof.
+  intros w H ch F w'. pose proof (run_inv ops) as I. fold w in I.
+  destruct (copy_same w i g I H) as [C1 C2].
+  assert (Li : i < length (objs w)) by (apply nth_error_Some; congruence).
+  split.
+  - unfold w'. rewrite others_untouched; [exact C2|apply step_inv; exact I| |].
+    + pose proof (step_objs_length w (Copy i)). lia.
+    + eapply Forall_impl; [|exact F]. intros o (r & x & ->). cbn. intros E. injection E as E. fold ch in E. lia.
+  - destruct (writes_to_child ch writes _ _ (step_inv _ _ I) C1 F) as (v' & V & A & _ & _ & N & W).
+    exists v'. split; [exact V|]. split; [exact A|]. split; [exact N|exact W].
+Qed.
+
+Theorem crossover_protocol ops i j gi gj (writes : list op) a :
+  let w := run ops in
+  nth_error (objs w) i = Some gi -> nth_error (objs w) j = Some gj ->
+  let c1 := length (objs w) in let c2 := Datatypes.S (length (objs w)) in
+  Forall (fun o => is_write_to c1 o \/ is_write_to c2 o) writes ->
+  let w' := fold_left step (writes ++ [SetAge c1 a; SetAge c2 a]) (step (step w (Copy i)) (Copy j)) in
+  view_at w' i = view_at w i /\ view_at w' j = view_at w j /\
+  option_map v_age (view_at w' c1) = Some a /\ option_map v_age (view_at w' c2) = Some a.
+Proof.
+  intros w Hi Hj c1 c2 F w'. pose proof (run_inv ops) as I. fold w in I.
+  set (w1 := step w (Copy i)). set (w2 := step w1 (Copy j)).
+  assert (I1 : Inv w1) by (apply step_inv; exact I). assert (I2 : Inv w2) by (apply step_inv; exact I1).
+  assert (Li : i < length (objs w)) by (apply nth_error_Some; congruence).
+  assert (Lj : j < length (objs w)) by (apply nth_error_Some; congruence).
+  assert (L1 : length (objs w1) = Datatypes.S (length (objs w))).
+  { unfold w1, AGraphObj.step. rewrite Hi. unfold alloc; cbn [objs]. rewrite app_length; cbn [length]; lia. }
+  assert (Hj1 : exists gj1, nth_error (objs w1) j = Some gj1).
+  { destruct (nth_error (objs w1) j) eqn:E; [eauto|]. apply nth_error_None in E. lia. }
+  destruct Hj1 as (gj1 & Hj1).
+  assert (L2 : length (objs w2) = Datatypes.S (Datatypes.S (length (objs w)))).
+  { unfold w2, AGraphObj.step. rewrite Hj1. unfold alloc; cbn [objs]. rewrite app_length; cbn [length]; lia. }
+  assert (Tg : Forall (fun o => target o <> Some i /\ target o <> Some j) (writes ++ [SetAge c1 a; SetAge c2 a])).
+  { apply Forall_app. split.
+    - eapply Forall_impl; [|exact F]. intros o [(r & x & ->)|(r & x & ->)]; cbn; split; intros E; injection E as E; unfold c1, c2 in E; lia.
+    - repeat constructor; cbn; intros E; injection E as E; unfold c1, c2 in E; lia. }
+  assert (Keep : forall k, k < length (objs w) -> view_at w2 k = view_at w k).
+  { intros k Lk. unfold w2. rewrite step_view_other; [|exact I1|lia|discriminate].
+    unfold w1. apply step_view_other; [exact I|exact Lk|discriminate]. }
+  split; [|split].
+  - unfold w'. fold w1 w2. rewrite others_untouched; [apply Keep; exact Li|exact I2|lia|].
+    eapply Forall_impl; [|exact Tg]. intros o [A _]; exact A.
+  - unfold w'. fold w1 w2. rewrite others_untouched; [apply Keep; exact Lj|exact I2|lia|].
+    eapply Forall_impl; [|exact Tg]. intros o [_ B]; exact B.
+  - unfold w'. fold w1 w2. rewrite fold_left_app. set (w3 := fold_left step writes w2).
+    assert (I3 : Inv w3) by (apply fold_inv; exact I2).
+    assert (L3 : Datatypes.S (Datatypes.S (length (objs w))) <= length (objs w3)).
+    { unfold w3. pose proof (fold_objs_length writes w2). lia. }
+    cbn [fold_left].
+    assert (E1 : exists g1, nth_error (objs w3) c1 = Some g1).
+    { destruct (nth_error (objs w3) c1) eqn:E; [eauto|]. apply nth_error_None in E. unfold c1 in E. lia. }
+    destruct E1 as (g1 & E1). pose proof (set_age_effect w3 c1 g1 a I3 E1) as A1.
+    set (w4 := step w3 (SetAge c1 a)) in *. assert (I4 : Inv w4) by (apply step_inv; exact I3).
+    assert (E2 : exists g2, nth_error (objs w4) c2 = Some g2).
+    { destruct (nth_error (objs w4) c2) eqn:E; [eauto|]. apply nth_error_None in E. pose proof (step_objs_length w3 (SetAge c1 a)). fold w4 in H. unfold c2 in E. lia. }
+    destruct E2 as (g2 & E2). pose proof (set_age_effect w4 c2 g2 a I4 E2) as A2.
+    split.
+    + rewrite step_view_other; [rewrite A1; reflexivity|exact I4| |cbn; intros E; injection E as E; unfold c1, c2 in E; lia].
+      pose proof (step_objs_length w3 (SetAge c1 a)). fold w4 in H. unfold c1. lia.
+    + rewrite A2. reflexivity.
 Qed.
 End P.
